@@ -1143,7 +1143,16 @@ void Harness::judge(ModelDesc const& m, CaseInput const& in)
         // NaN directions alone from its final-state helper
         bool only_dirs = nonfinite_fields.find("energy") == std::string::npos;
         std::string site = only_dirs ? m.helper : m.family;
-        if (only_dirs && in.dir[0] == 0 && in.dir[1] == 0 && std::fabs(in.dir[2]) != 1)
+        // A product at rest (energy exactly 0) has no direction: a NaN there comes from the
+        // final-state helper normalising a zero momentum (0/0), never from the frame rotation,
+        // even if the differential run below happens to be finite through rounding noise.
+        bool nan_only_at_rest = only_dirs && res.action == Action::scattered && res.energy.value() == 0
+                                && !(std::isfinite(res.direction[0]) && std::isfinite(res.direction[1])
+                                     && std::isfinite(res.direction[2]));
+        for (auto const& sa : o.secondaries)
+            if (sa && !(std::isfinite(sa.direction[0]) && std::isfinite(sa.direction[1]) && std::isfinite(sa.direction[2])))
+                nan_only_at_rest = false;
+        if (only_dirs && !nan_only_at_rest && in.dir[0] == 0 && in.dir[1] == 0 && std::fabs(in.dir[2]) != 1)
         {
             // On-axis incident direction that is only a *soft* unit vector (1 - z^2 > 0 with
             // x = y = 0: the small-angle branch of rotate()).  Differential run: same case,
@@ -1162,6 +1171,16 @@ void Harness::judge(ModelDesc const& m, CaseInput const& in)
                     alt_finite = alt_finite && std::isfinite(sa.direction[0])
                                  && std::isfinite(sa.direction[1])
                                  && std::isfinite(sa.direction[2]);
+            if (std::getenv("VERIF_DEBUG"))
+            {
+                std::cerr << "ALT status=" << int(oa.status) << " E=" << hexd(oa.result.energy.value()) << " dir=("
+                          << oa.result.direction[0] << "," << oa.result.direction[1] << "," << oa.result.direction[2]
+                          << ") nsec=" << oa.secondaries.size();
+                for (auto const& sa : oa.secondaries)
+                    std::cerr << " sec E=" << hexd(sa.energy.value()) << " dir=(" << sa.direction[0] << ","
+                              << sa.direction[1] << "," << sa.direction[2] << ")";
+                std::cerr << "\n";
+            }
             if (alt_finite)
                 site = "frame-rotation-small-angle-branch";
         }
